@@ -47,36 +47,45 @@ Definition m_spawn (cfg : mcfg) (s : mars) (i : nat) (off : N) : option mars :=
                 (m_cycles s))
   end.
 
+(* one executed task in the trace of a cycle: warrior, program counter,
+   number of successor tasks the step produced, whether the warrior died *)
+Record mev := mkEv { ev_w : nat; ev_pc : N; ev_succ : nat; ev_died : bool }.
+
 (* the warriors i, i+1, ... of one cycle; stops early (true) when a death leaves
    exactly one of several alive *)
-Fixpoint m_cycle_from (cfg : mcfg) (k : nat) (i : nat) (s : mars) : mars * bool :=
+Fixpoint m_cycle_from (cfg : mcfg) (k : nat) (i : nat) (s : mars) (tr : list mev)
+  : mars * bool * list mev :=
   match k with
-  | O => (s, false)
+  | O => (s, false, tr)
   | S k' =>
     match nth_error (m_ws s) i with
-    | None => (s, false)
+    | None => (s, false, tr)
     | Some w =>
       match mw_st w, mw_q w with
       | MAlive, pc :: q =>
-        let '(c', q') := step (mc_M cfg) (mc_R cfg) (mc_W cfg) (mc_P cfg) (m_core s) pc q in
+        let '(c', succs) := step_core (mc_M cfg) (mc_R cfg) (mc_W cfg) (m_core s) pc in
+        let q' := enq (mc_P cfg) q succs in
         match q' with
         | [] =>
           let s' := mkM c' (replace_nth (m_ws s) i (mkMW (mw_code w) (mw_start w) MDead [])) (m_cycles s) in
-          if ((1 <? length (m_ws s))%nat && (m_living s' =? 1)%nat)%bool then (s', true)
-          else m_cycle_from cfg k' (S i) s'
+          let tr' := tr ++ [mkEv i pc (length succs) true] in
+          if ((1 <? length (m_ws s))%nat && (m_living s' =? 1)%nat)%bool then (s', true, tr')
+          else m_cycle_from cfg k' (S i) s' tr'
         | _ =>
           m_cycle_from cfg k' (S i)
             (mkM c' (replace_nth (m_ws s) i (mkMW (mw_code w) (mw_start w) MAlive q')) (m_cycles s))
+            (tr ++ [mkEv i pc (length succs) false])
         end
-      | _, _ => m_cycle_from cfg k' (S i) s
+      | _, _ => m_cycle_from cfg k' (S i) s tr
       end
     end
   end.
 
 (* one cycle of an unfinished battle; the cycle is counted unless it was cut short *)
-Definition m_cycle (cfg : mcfg) (s : mars) : mars :=
-  let '(s', early) := m_cycle_from cfg (length (m_ws s)) 0 s in
-  if early then s' else mkM (m_core s') (m_ws s') (m_cycles s' + 1).
+Definition m_cycle_tr (cfg : mcfg) (s : mars) : mars * list mev :=
+  let '(s', early, tr) := m_cycle_from cfg (length (m_ws s)) 0 s [] in
+  (if early then s' else mkM (m_core s') (m_ws s') (m_cycles s' + 1), tr).
+Definition m_cycle (cfg : mcfg) (s : mars) : mars := fst (m_cycle_tr cfg s).
 
 (* iterate until finished; fuel >= cycle limit + 1 always suffices *)
 Fixpoint m_until_done (cfg : mcfg) (fuel : nat) (s : mars) : mars :=
